@@ -22,7 +22,7 @@ func init() {
 		if !(sepLen.op == "int" && sepLen.ival.Sign() == 0) {
 			return nil, false
 		}
-		e := ex.comp(st, "E.Slice", ArraySort(SInt, ArraySort(SInt, Sort("Slice"))))
+		e := ex.comp(st, "E.slice.uint8", ArraySort(SInt, ArraySort(SInt, Sort("Slice"))))
 		arr := f.Select(e, f.Acc("Slice", "ref", parts))
 		off := f.Acc("Slice", "off", parts)
 		var cat *Term
@@ -44,14 +44,14 @@ func init() {
 		// result: a fresh slice holding those bytes
 		r := ex.alloc(st)
 		ex.assume(st, f.Gt(r, f.Int(0)))
-		name := "E.Int"
+		name := "E.uint8"
 		ei := ex.comp(st, name, ArraySort(SInt, ArraySort(SInt, SInt)))
 		content := f.App("str.bytes_", ArraySort(SInt, SInt), cat)
 		ex.setComp(st, name, f.Store(ei, r, content))
 		ex.assumes = append(ex.assumes, f.Eq(f.App("str.frombytes_", SStr, content, f.Int(0), ex.tm.StrLen(cat)), cat))
 		ex.assume(st, f.Eq(ex.tm.StrLen(cat), total))
 		return []*Term{f.Mk("Slice", r, f.Int(0), total, total)}, true
-	}, "E.Int")
+	}, "E.uint8")
 	// strings.Join: a function of the contents of the slice and the separator
 	reg("strings.Join", func(fr *Frame, st *State, c *ssa.CallCommon, args []*Term) ([]*Term, bool) {
 		return []*Term{fr.ex.strJoin(st, args[0], args[1])}, true
@@ -60,7 +60,7 @@ func init() {
 
 func (ex *Exec) strJoin(st *State, s, sep *Term) *Term {
 	f := ex.f
-	e := ex.comp(st, "E.Str", ArraySort(SInt, ArraySort(SInt, SStr)))
+	e := ex.comp(st, "E.string", ArraySort(SInt, ArraySort(SInt, SStr)))
 	arr := f.Select(e, f.Acc("Slice", "ref", s))
 	r := f.App("strings.Join_", SStr, arr, f.Acc("Slice", "off", s), f.Acc("Slice", "len", s), sep)
 	ex.assume(st, f.Ge(ex.tm.StrLen(r), f.Int(0)))
